@@ -413,6 +413,15 @@ func snapAssoc(a *Association) string {
 		fmt.Fprintf(&b, "[%d %d a%v ab%v n%d]", c.tsn-a.initialTSN, len(c.userData), c.acked, c.abandoned(), c.nSent)
 	}
 	fmt.Fprintf(&b, " pend=%d/%d rc=%d rr=%d", a.pendingQueue.nChunks, a.pendingQueue.nBytes, len(a.reconfigs), len(a.reconfigRequests))
+	// the retransmission timer of outstanding reset requests: a packet that is to be ignored
+	// neither starts nor stops it
+	if a.tReconfig != nil {
+		fmt.Fprintf(&b, " trc=%v", a.tReconfig.isRunning())
+	}
+	// ... nor does it feed the round-trip estimator
+	if a.rtoMgr != nil {
+		fmt.Fprintf(&b, " rto=%.0f", a.rtoMgr.getRTO())
+	}
 	for _, sid := range vsched.SortedKeys(a.streams) {
 		s := a.streams[sid]
 		r := s.reassemblyQueue
